@@ -588,3 +588,30 @@ Lemma notunique_text classes n :
   error_text classes (ErrNotUnique n) =
   ([110;97;109;101;32]%N ++ n ++ [32;105;115;32;110;111;116;32;117;110;105;113;117;101;46]%N, None).
 Proof. unfold error_text, render, notunique_msg. cbn [flat_map]. rewrite !app_nil_r. reflexivity. Qed.
+
+(* ------------------------------------------------------------------ several loaded models *)
+(* the outcome for a reference of model i does not depend on the other loaded models *)
+Lemma same_model_only classes world world' i b r :
+  nth i world empty_model = nth i world' empty_model ->
+  resolve_in classes world i b r = resolve_in classes world' i b r.
+Proof. unfold resolve_in. intros ->. reflexivity. Qed.
+
+(* an object of another loaded model j that matches by name and type is not a candidate: if the referring
+   model i has no matching object, the reference falls through to builtins / Unknown object *)
+Lemma imported_not_candidate classes world i j b r p d :
+  wf_classes classes = true -> j <> i ->
+  Cand classes (nth j world empty_model) (rname r) (rcls r) p d ->
+  NoCand classes (nth i world empty_model) (rname r) (rcls r) ->
+  (forall q, resolve_in classes world i b r <> Resolved q) /\
+  (resolve_in classes world i b r = Builtin (rname r) \/
+   resolve_in classes world i b r = ErrUnknown (rname r) (rcls r)).
+Proof.
+  intros Hwf _ _ Hn. unfold resolve_in.
+  pose proof (resolve_ref_cases classes Hwf (nth i world empty_model) b r) as H.
+  destruct (resolve_ref classes (nth i world empty_model) b r) as [q|k|n|n t|].
+  - exfalso. eapply unique_not_none; eassumption.
+  - destruct H as [-> _]. split; [intros q E; discriminate | left; reflexivity].
+  - destruct H as [_ Hm]. exfalso. eapply many_not_none; eassumption.
+  - destruct H as [-> [-> _]]. split; [intros q E; discriminate | right; reflexivity].
+  - contradiction.
+Qed.
